@@ -210,8 +210,8 @@ DefaultBitVectorState parseBitVector(std::string_view value)
 				defined = 0;
 
 			size_t dstIdx = num.size() - 1 - i;
-			ret.insertNonStraddling(sim::DefaultConfig::VALUE, dstIdx * bps, bps, value);
-			ret.insertNonStraddling(sim::DefaultConfig::DEFINED, dstIdx * bps, bps, defined);
+			ret.insert(sim::DefaultConfig::VALUE, dstIdx * bps, bps, value);
+			ret.insert(sim::DefaultConfig::DEFINED, dstIdx * bps, bps, defined);
 		}
 	};
 
@@ -357,10 +357,10 @@ ExtendedBitVectorState parseExtendedBitVector(std::string_view value)
 				defined = 0;
 
 			size_t dstIdx = num.size() - 1 - i;
-			ret.insertNonStraddling(sim::ExtendedConfig::VALUE, dstIdx * bps, bps, value);
-			ret.insertNonStraddling(sim::ExtendedConfig::DEFINED, dstIdx * bps, bps, defined);
-			ret.insertNonStraddling(sim::ExtendedConfig::DONT_CARE, dstIdx * bps, bps, dont_care);
-			ret.insertNonStraddling(sim::ExtendedConfig::HIGH_IMPEDANCE, dstIdx * bps, bps, high_impedance);
+			ret.insert(sim::ExtendedConfig::VALUE, dstIdx * bps, bps, value);
+			ret.insert(sim::ExtendedConfig::DEFINED, dstIdx * bps, bps, defined);
+			ret.insert(sim::ExtendedConfig::DONT_CARE, dstIdx * bps, bps, dont_care);
+			ret.insert(sim::ExtendedConfig::HIGH_IMPEDANCE, dstIdx * bps, bps, high_impedance);
 		}
 	};
 
